@@ -17,7 +17,7 @@ from vlib import ctl, engine, hist
 
 PROPERTY = "C02"
 LEVEL = "exploration"
-RULE = ("program families over the editable task family vh (top/deep/mix/guarded(catch)/failing/readf(File input)/"
+RULE = ("program families over the editable task family vh (top/deep/mix/guarded(catch)/failing/readf(File input)/nestfile(File built inside a body, nested in call arguments)/"
         "pipeline(File output)), each task unversioned or versioned at random; histories of N executions with one step "
         "between executions from {edit body, revert to earlier body, change argument, change it back, rewrite input "
         "file with different size or mtime, touch nothing}.  Non-trivial = distinct history in which some execution "
@@ -25,11 +25,11 @@ RULE = ("program families over the editable task family vh (top/deep/mix/guarded
 ASSUMPTIONS = ["default cache options only (cache_scope=BACKEND, check_valid=full), as the property states",
                "tasks are deterministic functions of arguments and input file contents"]
 
-FAMILIES = ["top", "deep", "mix", "guarded", "failing", "readf", "pipeline"]
+FAMILIES = ["top", "deep", "mix", "guarded", "failing", "readf", "pipeline", "nestfile"]
 EDITABLE = {"top": ["leafA", "leafB", "plus", "mid", "top"], "deep": ["leafA", "leafB", "plus", "mid", "top", "deep"],
             "mix": ["leafA", "leafB", "plus", "mid", "top", "maybe_fail", "recover", "guarded"],
             "guarded": ["maybe_fail", "recover", "guarded", "leafA"], "failing": ["leafA", "leafB", "maybe_fail", "failing_parent"],
-            "readf": ["readf"], "pipeline": ["readf", "writef", "pipeline"]}
+            "readf": ["readf"], "pipeline": ["readf", "writef", "pipeline"], "nestfile": ["readf", "cat2", "leafA"]}
 
 
 class World:
@@ -67,6 +67,8 @@ class World:
             return T["failing_parent"](self.x)
         if f == "readf":
             return [T["readf"](File(self.inp)), T["leafA"](self.x)]
+        if f == "nestfile":
+            return [T["nestfile"](self.inp, self.x), T["leafB"](self.y)]
         if f == "pipeline":
             out = os.path.join(self.d, "out-fresh.txt" if fresh else "out.txt")
             return T["pipeline"](out, self.content)
@@ -89,7 +91,7 @@ def gen_step(rnd, world, past_variants):
         return ["nothing"]
     if r < 0.75:
         return ["arg", rnd.choice(["x", "y", "content"]), rnd.randint(0, 5)]
-    if r < 0.9 and world.family in ("readf",):
+    if r < 0.9 and world.family in ("readf", "nestfile"):
         return ["file", rnd.choice(["rewrite-size", "rewrite-mtime", "same-bytes-new-mtime"])]
     return ["nothing"]
 
